@@ -62,6 +62,28 @@ fn class_index(v: u16) -> usize {
     })[v as usize]
 }
 
+/// A HandRank whose fields were written one by one into storage pre-filled with `fill` (padding keeps the fill).
+struct Stored {
+    mem: Box<std::mem::MaybeUninit<[HandRank; 1]>>,
+}
+impl Stored {
+    fn get(&self) -> &HandRank {
+        // all three fields are initialised below; padding bytes carry no validity requirement
+        unsafe { &(*self.mem.as_ptr())[0] }
+    }
+}
+fn stored_with_fill(h: &HandRank, fill: u8) -> Stored {
+    let mut mem: Box<std::mem::MaybeUninit<[HandRank; 1]>> = Box::new(std::mem::MaybeUninit::uninit());
+    unsafe {
+        std::ptr::write_bytes(mem.as_mut_ptr() as *mut u8, fill, std::mem::size_of::<HandRank>());
+        let p = mem.as_mut_ptr() as *mut HandRank;
+        std::ptr::addr_of_mut!((*p).value).write(h.value);
+        std::ptr::addr_of_mut!((*p).name).write(h.name);
+        std::ptr::addr_of_mut!((*p).class).write(h.class);
+    }
+    Stored { mem }
+}
+
 fn valid(v: u16) -> bool {
     (1..=7462).contains(&v)
 }
@@ -182,6 +204,31 @@ pub fn judge(case: &Case) -> Verdict {
                 return Verdict::Violated { class: "class-enum-order:any-pair".into(), expected: format!("class({}) {:?} class({}) with cmp, partial_cmp and the operators agreeing (strongest first, Invalid last)", v, ec, w), observed: format!("cmp {:?} partial_cmp {:?} < {} <= {} > {} >= {} == {}", t.7, t.8, t.9, t.10, t.11, t.12, t.13) };
             }
             Verdict::Holds
+        }
+        "equal-in-dirty-storage" => {
+            // the same rank stored three ways: a fresh local, storage pre-filled with 0xFF bytes, storage pre-filled with
+            // zero bytes (fields written one by one, so padding keeps the fill) - comparison must not see the difference
+            let v = match case.words.first() {
+                Some(v) if *v <= 65535 => *v as u16,
+                _ => return Verdict::NotJudged("a 16-bit value".into()),
+            };
+            match guard(|| {
+                let fresh = HandRank::from(v);
+                let ff = stored_with_fill(&fresh, 0xFF);
+                let zz = stored_with_fill(&fresh, 0x00);
+                let (a, b) = (ff.get(), zz.get());
+                (a.cmp(b), b.cmp(a), a == b, a.cmp(&fresh), fresh.cmp(b), a < b, a > b, a <= b, a >= b, a.partial_cmp(b))
+            }) {
+                Err(p) => Verdict::Violated { class: "panic:equal-in-dirty-storage".into(), expected: "Equal".into(), observed: format!("panic: {}", p) },
+                Ok(t) => {
+                    let ok = t.0 == Ordering::Equal && t.1 == Ordering::Equal && t.2 && t.3 == Ordering::Equal && t.4 == Ordering::Equal && !t.5 && !t.6 && t.7 && t.8 && t.9 == Some(Ordering::Equal);
+                    if ok {
+                        Verdict::Holds
+                    } else {
+                        Verdict::Violated { class: "equal-ranks-compare-unequal:depends-on-storage-history".into(), expected: format!("from({}) compares Equal to itself wherever the two copies are stored", v), observed: format!("cmp {:?}/{:?}, == {}, vs fresh {:?}/{:?}, < {} > {} <= {} >= {}, partial_cmp {:?}", t.0, t.1, t.2, t.3, t.4, t.5, t.6, t.7, t.8, t.9) }
+                    }
+                }
+            }
         }
         "invalid-greatest" => {
             let v = match case.words.first() {
@@ -316,6 +363,20 @@ pub fn run(_ctx: &Ctx, rep: &mut Report) {
         if let Some(x) = confirm(judge, Case::new("invalid-greatest", &[v])) {
             acc.violate(x);
         }
+    }
+    // equal ranks whose storage has a different history (padding bytes differ)
+    {
+        let t0 = Instant::now();
+        let mut acc = Acc::new(1);
+        for v in 0..=65535u64 {
+            acc.cases += 1;
+            acc.calls += 10;
+            acc.nontrivial += 1;
+            if let Some(x) = confirm(judge, Case::new("equal-in-dirty-storage", &[v])) {
+                acc.violate(x);
+            }
+        }
+        rep.add_space("every value: the rank compared with a copy of itself stored in 0xFF-filled, zero-filled and fresh storage", &acc, t0, "cmp, ==, operators must not depend on padding bytes / where the rank lives");
     }
     // all pairs of values for the derived enum orders (a hand-written, non-transitive comparator passes adjacent pairs)
     {
